@@ -37,8 +37,13 @@ def run_api(case):
     lengths += [int(x) for x in rng.integers(maxlen, 1 << 18, 6 if case["tier"] == "quick" else 40)]
     if case["shard"] == 0:
         lengths += [65535, 65536, 65537, (1 << 17) - 1, 1 << 17]
-    if case["shard"] == 1 and case["tier"] != "quick":
-        lengths += [(1 << 20) + 3, (1 << 22) + 1]
+    # lengths whose word count needs the upper bits of the 24-bit length field (split over two fields of the header)
+    if case["shard"] == 1:
+        lengths += [(1 << 20) + 3] + ([(1 << 22) + 1] if case["tier"] != "quick" else [])
+    if case["shard"] == 2:
+        lengths += [0x234567] + ([0xF00001, (1 << 23) + 7] if case["tier"] != "quick" else [])
+    if case["shard"] == 3:
+        lengths += [1 << 20, (1 << 16) * 17]
     accs = list(api.NpuAccelerator)
     for k, n in enumerate(lengths):
         style = int(rng.integers(0, 4))
